@@ -118,13 +118,13 @@ theorem error_meaning (c : Cfg) (h : (run c).exit ≠ .hang) (p : Plugin) (hp : 
     (ErrKind.dotdot ∈ r.errs → HEvent.recvOk .generate ∈ r.h) :=
   shape_errs p _ (finish_shape _ p (flagsOK_of_not_hang c h p hp) ((not_hang c h).2.2 p hp))
 
-/-- Finding D31 (negation of "failure naming the plugin" by a concrete witness): plugin `b`
+/-- Finding D41 (negation of "failure naming the plugin" by a concrete witness): plugin `b`
 fails only at goodbye; the run exits with failure after the files were written and the error
 output names no plugin. -/
 theorem goodbye_failure_unnamed :
-    (run cfgD31).exit = .fail ∧ (run cfgD31).wrote.isSome = true ∧
-    (run cfgD31).recs.map (·.errs) = [[], [.goodbye]] ∧
-    (run cfgD31).recs.map namedIn = [false, false] :=
+    (run cfgD41).exit = .fail ∧ (run cfgD41).wrote.isSome = true ∧
+    (run cfgD41).recs.map (·.errs) = [[], [.goodbye]] ∧
+    (run cfgD41).recs.map namedIn = [false, false] :=
   goodbye_failure_unnamed_run
 
 /-- **completion order**: the per-plugin histories and the exit verdict are the same for every
